@@ -54,14 +54,23 @@ pub struct SearchGraph<K, V> { _p: core::marker::PhantomData<(K, V)> }
 impl<K, V> SearchGraph<K, V> {
     pub uninterp spec fn nodes(&self) -> Seq<Node<K, V>>;
     pub uninterp spec fn spec_lookup(&self, goal: K) -> Option<DepthFirstNumber>;
+    /// how many times nodes of this graph were moved to the permanent cache
+    pub uninterp spec fn moves(&self) -> nat;
     #[verifier::external_body]
     pub fn lookup(&self, goal: &K) -> (r: Option<DepthFirstNumber>) ensures r == self.spec_lookup(*goal) { unimplemented!() }
     #[verifier::external_body]
-    pub fn insert(&mut self, goal: &K, stack_depth: StackDepth, solution: V) -> (r: DepthFirstNumber) { unimplemented!() }
+    pub fn insert(&mut self, goal: &K, stack_depth: StackDepth, solution: V) -> (r: DepthFirstNumber)
+        ensures final(self).moves() == old(self).moves()
+    { unimplemented!() }
     #[verifier::external_body]
-    pub fn rollback_to(&mut self, dfn: DepthFirstNumber) { unimplemented!() }
+    pub fn rollback_to(&mut self, dfn: DepthFirstNumber)
+        ensures final(self).moves() == old(self).moves()
+    { unimplemented!() }
+    /// makes the answers of nodes dfn.. permanent (the cache has interior mutability)
     #[verifier::external_body]
-    pub fn move_to_cache(&mut self, dfn: DepthFirstNumber, cache: &Cache<K, V>) { unimplemented!() }
+    pub fn move_to_cache(&mut self, dfn: DepthFirstNumber, cache: &Cache<K, V>)
+        ensures final(self).moves() == old(self).moves() + 1
+    { unimplemented!() }
 }
 impl<K, V> core::ops::Index<DepthFirstNumber> for SearchGraph<K, V> {
     type Output = Node<K, V>;
@@ -74,7 +83,9 @@ impl<K, V> vstd::std_specs::core::IndexSpecImpl<DepthFirstNumber> for SearchGrap
 }
 impl<K, V> core::ops::IndexMut<DepthFirstNumber> for SearchGraph<K, V> {
     #[verifier::external_body]
-    fn index_mut(&mut self, i: DepthFirstNumber) -> (r: &mut Node<K, V>) { unimplemented!() }
+    fn index_mut(&mut self, i: DepthFirstNumber) -> (r: &mut Node<K, V>)
+        ensures final(self).moves() == old(self).moves()
+    { unimplemented!() }
 }
 
 pub struct StackEntry { pub coinductive_goal: bool, pub cycle: bool }
@@ -139,6 +150,8 @@ impl<K, V> RecursiveContext<K, V> where K: Hash + Eq + Debug + Clone, V: Debug +
     /// HAVOC: the fixed-point iteration for a new goal (calls back into solve_goal through the solver)
     #[verifier::external_body]
     fn solve_new_subgoal(&mut self, canonical_goal: &K, depth: StackDepth, dfn: DepthFirstNumber, solver_stuff: impl SolverStuff<K, V>, should_continue: impl std::ops::Fn() -> bool + Clone) -> Minimums
+        // induction hypothesis of clause (E): the loop reaches the cache only through nested solve_goal calls  //@ONLY V19
+        ensures (forall|b: bool| should_continue.ensures((), b) ==> !b) ==> final(self).graph().moves() == old(self).graph().moves(),  //@ONLY V19
     { unimplemented!() }
 
 // ------------------------------------------------------------- real functions
@@ -150,6 +163,9 @@ impl<K, V> RecursiveContext<K, V> where K: Hash + Eq + Debug + Clone, V: Debug +
         // `V::clone` returns an equal value (the derived Clone of the answer type)
         forall|a: V, b: V| call_ensures(V::clone, (&a,), b) ==> a == b,
     ensures
+        // (E) C11: while the caller's callback says "stop", answers are provisional (`Ambig(Unknown)`, unit V4):  //@ONLY V19
+        //     none of them may be made permanent, or later solves on this solver differ from a fresh solver  //@ONLY V19
+        (forall|b: bool| should_continue.ensures((), b) ==> !b) ==> final(self).graph().moves() == old(self).graph().moves(),  //@ONLY V19
         // (D) the caller's minimums never go up
         final(minimums).pos() <= old(minimums).pos(),
         match old(self).cached(*goal) {
